@@ -227,6 +227,10 @@ func (fr *Frame) inline(st *State, fn *ssa.Function, args, free []Val, pos token
 	ex := fr.ex
 	if ex.ghost == 0 {
 		ex.inlined[fn.String()] = true
+		if ex.inlinedFns == nil {
+			ex.inlinedFns = map[*ssa.Function]bool{}
+		}
+		ex.inlinedFns[fn] = true
 	}
 	sub := ex.newFrame(fn, args, free, fr)
 	sub.callPos = pos
